@@ -6,6 +6,7 @@ package core
 
 import (
 	"encoding/json"
+	"fmt"
 	"math/rand"
 	"sort"
 	"strings"
@@ -44,6 +45,7 @@ type c01Op struct {
 	NoObs    bool             `json:"-"`
 	Scale    bool             `json:"scale,omitempty"`
 	Ops      []c01Op          `json:"ops,omitempty"`
+	Lane     int              `json:"lane,omitempty"` // par: sub-operations of one lane (> 0) run in order on one goroutine; lane 0 = a goroutine of its own
 }
 
 var c01Dims = []string{"cpu", "memory"}
@@ -225,6 +227,15 @@ func c01Obs(gqm *GroupQuotaManager) map[string]interface{} {
 			},
 			"pods": pods,
 		}
+	}
+	// the root group is not reported by the summaries (an abstract entity) but its totals are maintained by the same
+	// delta propagation: read in-package
+	if root := gqm.getQuotaInfoByNameNoLock(extension.RootQuotaName); root != nil {
+		root.lock.Lock()
+		out[extension.RootQuotaName] = vu.Ev{"root": vu.Ev{
+			"used": c01Vec(root.CalculateInfo.Used), "request": c01Vec(root.CalculateInfo.Request),
+			"npUsed": c01Vec(root.CalculateInfo.NonPreemptibleUsed), "npRequest": c01Vec(root.CalculateInfo.NonPreemptibleRequest)}}
+		root.lock.Unlock()
 	}
 	return out
 }
@@ -478,7 +489,11 @@ func c01Event(o c01Op) vu.Ev {
 	case "par":
 		subs := []vu.Ev{}
 		for _, s := range o.Ops {
-			subs = append(subs, c01Event(s))
+			se := c01Event(s)
+			if s.Lane != 0 {
+				se["lane"] = s.Lane
+			}
+			subs = append(subs, se)
 		}
 		ev["ops"] = subs
 	}
@@ -511,13 +526,34 @@ func c01RunOpt(rec *vu.Recorder, script []c01Op, noObs bool) {
 			ev["obs"] = c01Obs(w.fresh(o.Variant))
 		case "par":
 			var wg sync.WaitGroup
+			lanes := map[int][]c01Op{}
+			var order []int
 			for _, sub := range o.Ops {
-				wg.Add(1)
-				go func(s c01Op) {
-					defer wg.Done()
-					w.apply(s)
-				}(sub)
+				if sub.Lane == 0 {
+					wg.Add(1)
+					go func(s c01Op) {
+						defer wg.Done()
+						w.apply(s)
+					}(sub)
+					continue
+				}
+				if _, seen := lanes[sub.Lane]; !seen {
+					order = append(order, sub.Lane)
+				}
+				lanes[sub.Lane] = append(lanes[sub.Lane], sub)
 			}
+			start := make(chan struct{})
+			for _, l := range order {
+				wg.Add(1)
+				go func(ops []c01Op) {
+					defer wg.Done()
+					<-start
+					for _, s := range ops {
+						w.apply(s)
+					}
+				}(lanes[l])
+			}
+			close(start)
 			wg.Wait()
 			ev["obs"] = c01Obs(w.gqm)
 		default:
@@ -772,7 +808,59 @@ func TestVerifC01(t *testing.T) {
 	for i := 0; i < n; i++ {
 		c01Run(rec, c01Random(rng, length, i%2 == 1, i%3 == 2))
 	}
+	// storms: one goroutine per top-level group runs a whole pod life (add, reserve, resize, unreserve, reserve, delete,
+	// several pods) on the pods of its own group, all groups at once; the groups share only the root
+	nstorm := 25
+	if vu.Thorough() {
+		nstorm = 300
+	}
+	for i := 0; i < nstorm; i++ {
+		c01Run(rec, c01Storm(rng))
+	}
 	t.Logf("C01: %d segments, %d events", rec.Segments(), rec.Events())
+}
+
+func c01Storm(rng *rand.Rand) []c01Op {
+	var out []c01Op
+	groups := []string{"a", "b", "c", "d", "e", "f", "g", "h"}[:4+rng.Intn(5)]
+	for _, g := range groups {
+		mx := map[string]int64{"cpu": 50 + rng.Int63n(50), "memory": 50 + rng.Int63n(50)}
+		out = append(out, c01Op{Op: "quota", Name: g, Parent: extension.RootQuotaName, Lent: rng.Intn(2) == 0,
+			Min: map[string]int64{"cpu": rng.Int63n(20), "memory": rng.Int63n(20)}, Max: mx})
+	}
+	vec := func() map[string]int64 {
+		return map[string]int64{"cpu": 1 + rng.Int63n(9), "memory": 1 + rng.Int63n(9)}
+	}
+	for round := 0; round < 3; round++ {
+		par := c01Op{Op: "par"}
+		for li, g := range groups {
+			for k := 0; k < 3; k++ {
+				pod := fmt.Sprintf("%s%d", g, k)
+				np := rng.Intn(4) == 0
+				life := []c01Op{
+					{Op: "podAdd", Pod: pod, Q: g, Req: vec(), Np: np},
+					{Op: "reserve", Pod: pod},
+					{Op: "podUpdate", Pod: pod, Q: g, Req: vec(), Np: np},
+					{Op: "unreserve", Pod: pod},
+					{Op: "reserve", Pod: pod},
+					{Op: "podUpdate", Pod: pod, Q: g, Req: vec(), Np: np, Bound: true},
+				}
+				if round < 2 || rng.Intn(2) == 0 {
+					life = append(life, c01Op{Op: "podDelete", Pod: pod})
+				}
+				for _, o := range life {
+					o.Lane = li + 1
+					par.Ops = append(par.Ops, o)
+				}
+			}
+		}
+		out = append(out, par)
+		if round == 1 {
+			out = append(out, c01Op{Op: "rebuild", Variant: rng.Intn(2)})
+		}
+	}
+	// pods left over from the last round are deleted one by one
+	return out
 }
 
 // ---- C19, quota part: allocation histories cut by restarts ----
